@@ -31,9 +31,10 @@ MANIFEST = dict(
     note="Lean 4.33 kernel; axioms propext/Classical.choice/Quot.sound at most (audited per theorem every run); "
          "hand-written model tied to hostlist.c/opt.c/split.c by differential execution of the real sources built "
          "from /repo's working tree plus constants regenerated from /repo; glibc strtoul/snprintf/strncpy modelled "
-         "not verified; numeric parts < 2^64; the string-level theorem covers the token level (tokenizer exercised "
-         "by the correspondence, exhaustively for short strings in the thorough tier); harness, generators, gcc, "
-         "ASan/UBSan trusted")
+         "not verified; numeric parts < 2^64; proved at TEXT level: hostlist_create = expand1 (tokenizer included), "
+         "the command line's first comma split is invisible for every text, the whole -w path = expand2; the -x and "
+         "WCOLL/^file contexts and look-up by name are correspondence/oracle only (pinned + generated cases on the "
+         "real pdsh / hostlist_find); harness, generators, gcc, ASan/UBSan trusted")
 
 
 def crash_signature(s, p):
@@ -122,8 +123,13 @@ def judge(ctx, s, exp, impl, model, origin):
 
 def run(ctx):
     rng = ctx.rng
-    if ctx.replay and "expr_hex" not in json.load(open(ctx.replay)).get("case", {}):
-        ctx.replay = None       # a theorem/correspondence replay names no input: the whole check is the replay
+    ctx_only = None
+    if ctx.replay:
+        rcase = json.load(open(ctx.replay)).get("case", {})
+        if str(rcase.get("origin", "")).startswith("ctx-") or rcase.get("origin") == "find":
+            ctx_only = rcase        # a -x / WCOLL-file / look-up case: only that case is run again
+        elif "expr_hex" not in rcase:
+            ctx.replay = None       # a theorem/correspondence replay names no input: the whole check is the replay
     ctx.gen_consts(["hostlist"])
     ctx.lean_build([PROPS, "pdshmodel"])
     ctx.audit(PROPS)
@@ -136,7 +142,14 @@ def run(ctx):
                    "(thorough) all strings over {a,0,1,9,[,],-,,} up to length 6; on the pdsh binary also LONG GROUPS "
                    "(hundreds of disjoint numbers / small ranges under one prefix, as one bracket list or as a run of "
                    "words, compressed group text 990..2500 bytes incl. exactly 1023/1024/1025) whose contacted hosts "
-                   "are compared; expected = AST-level expansion "
+                   "are compared; LOOK-UP BY NAME (hostlist_find of names of the expansion in the list built from the "
+                   "text = position of the first occurrence; 11 pinned texts with bare ranges / numeric names / "
+                   "digit-ending prefixes + 140 generated); the OTHER CONTEXTS that accept an expression: `-w W -x X` (12 pinned pairs naming the "
+                   "same hosts in another spelling -- names a bare range generated typed as plain words and vice versa, "
+                   "purely numeric names, paddings, repeats, two brackets -- plus generated pairs; expected = expansion "
+                   "of W minus the names of the expansion of X) and WCOLL / `-w ^FILE` (one expression per line; pinned "
+                   "line lengths k*(LINEBUFSIZE-1)-1 and neighbours, LINEBUFSIZE read from the tree; expected = the "
+                   "lines' expansions in order); expected = AST-level expansion "
                    "(Python) = string-level expansion (Lean spec); non-trivial = expansion has >= 2 hosts and the text "
                    ">= 1 bracket group; distinct = distinct rendered text"}
     dist = {"wellformed": 0, "valid-from-malformed-stream": 0, "exhaustive": 0, "corpus": 0, "cli": 0, "nth": 0,
@@ -144,6 +157,8 @@ def run(ctx):
     gen = WFGen(rng)
 
     def stream():
+        if ctx_only is not None:
+            return
         if ctx.replay:
             rep = json.load(open(ctx.replay))
             yield (unhx(rep["case"]["expr_hex"].rstrip(".")), None, "replay")
@@ -163,6 +178,9 @@ def run(ctx):
         for _ in range(1200 if ctx.quick() else 20000):
             yield (gen_malformed(rng, wf2, md), None, "stream15")
         if ctx.tier == "thorough":
+            dist["exhaustive-scope"] = {"alphabet": "a 0 1 9 [ ] - ,", "lengths": "0..6",
+                                        "strings": sum(8 ** k for k in range(7)),
+                                        "judged": "those the spec accepts (counted in `exhaustive`)"}
             for s in exhaustive(b"a019[]-,", 6):
                 yield (s, None, "exhaustive")
 
@@ -221,10 +239,16 @@ def run(ctx):
         if not ctx.replay:
             dist["generator"] = gen.dist
             nth_check(ctx, hl, nth_sample, dist)
+            find_check(ctx, hl, nth_sample, dist, cov)
             cli_check(ctx, hl, dist, cov)
+            context_check(ctx, hl, dist, cov)
         else:
             rep = json.load(open(ctx.replay))
-            if rep["case"].get("origin") == "cli":
+            if ctx_only is not None and ctx_only.get("origin") == "find":
+                find_check(ctx, hl, [], dist, cov, only=ctx_only)
+            elif ctx_only is not None:
+                context_check(ctx, hl, dist, cov, only=ctx_only)
+            elif rep["case"].get("origin") == "cli":
                 cli_check(ctx, hl, dist, cov, only=unhx(rep["case"]["expr_hex"]))
     dist["probed-variant"] = hl.probed()
     cov["distribution"] = dist
@@ -276,6 +300,86 @@ def nth_check(ctx, hl, cases, dist):
             k = next((i for i in range(min(len(ans), len(mm))) if ans[i] != mm[i]), min(len(ans), len(mm)))
             ctx.disagreement("hl model vs hostlist.c (nth)", "ops %s: impl %s model %s %s" %
                              (q[:k + 1][-2:], ans[k:k + 1], mm[k:k + 1], (crash or "")[-300:]), {"ops": q})
+
+
+FIND_PINNED = [b"[8-12]", b"[08-10]", b"7,[5-6],a[1-3]", b"[1-3]0,[9-11]", b"42,[40-44],042", b"0,[0-1],00",
+               b"n0[1-2],n[01-02]", b"x9[10-11],x[910-911]", b"a[1-3],a[2-4]", b"foo1,foo01,foo001", b"[5-6]-[0-1]"]
+
+
+def tail_value(name):
+    """value of the trailing digit run of a name (None: no digit at the end)"""
+    k = len(name)
+    while k > 0 and name[k - 1:k].isdigit():
+        k -= 1
+    return int(name[k:]) if k < len(name) else None
+
+
+def find_check(ctx, hl, cases, dist, cov, only=None):
+    """LOOK-UP BY NAME: every name of the expansion is found in the list `hostlist_create` built, at the position
+    of its first occurrence (a name denotes the same host whether a range generated it or it was typed as a word:
+    what -x and every by-name use rely on).  Names whose numeric tail exceeds MAX_HOST_SUFFIX are left out (the
+    library never splits such a tail off: C16's F16-BIGSUFFIX)."""
+    rng = ctx.rng
+    maxsuf = 1 << 25
+    try:
+        import re as _re
+        from vlib.common import LEAN_DIR
+        m = _re.search(r"def MAX_HOST_SUFFIX : Nat := (\d+)", open(os.path.join(LEAN_DIR, "PdshVerif", "Gen", "Hostlist.lean")).read())
+        if m:
+            maxsuf = int(m.group(1))
+    except OSError:
+        pass
+    todo = []
+    if only is not None:
+        todo.append((unhx(only["expr_hex"]), None, [unhx(only["name_hex"])]))
+    else:
+        for s in FIND_PINNED:
+            todo.append((s, None, None))
+        for s, exp, _ in cases:
+            if len(todo) >= (len(FIND_PINNED) + (140 if ctx.quick() else 3000)):
+                break
+            if exp is None or not exp or len(exp) > 300 or len(s) > 400 or feat_big(s):
+                continue
+            todo.append((s, exp, None))
+    need = [s for s, exp, _ in todo if exp is None]
+    sp = dict(zip(need, hl.spec(need))) if need else {}
+    seqs = []
+    for s, exp, names in todo:
+        if exp is None:
+            v = parse_spec(sp[s])
+            if not v["ok"] or v["note64"] or v.get("more1"):
+                continue
+            exp = v["hosts1"]
+        if not exp:
+            continue
+        if names is None:
+            idx = sorted({0, len(exp) - 1, rng.randrange(len(exp)), rng.randrange(len(exp)), rng.randrange(len(exp))})
+            if len(exp) <= 8:
+                idx = list(range(len(exp)))
+            names = [exp[i] for i in idx]
+        names = [n for n in names if n and (tail_value(n) is None or tail_value(n) <= maxsuf)]
+        if names:
+            seqs.append((s, exp, names, ["create " + hx(s)] + ["find " + hx(n) for n in names]))
+    if not seqs:
+        return
+    from vlib.seqrun import run_batch
+    res = run_batch([hl.exe], [q for _, _, _, q in seqs], env=hl.env, timeout=300)
+    dist["find"] = 0
+    for (s, exp, names, q), (ans, crash) in zip(seqs, res):
+        case = {"expr": s[:300].decode("latin1"), "expr_hex": hx(s), "origin": "find"}
+        if crash is not None or len(ans) != len(q):
+            ctx.offender("find-crash", "hostlist_find on the list built from %r: %s" % (s[:100], (crash or "")[-200:]),
+                         dict(case, name_hex=hx(names[0])))
+            continue
+        for n, a in zip(names, ans[1:]):
+            dist["find"] += 1
+            cov["evaluations"] += 1
+            want = exp.index(n)
+            if a != str(want):
+                ctx.offender("find-mismatch", "hostlist_find(%r) in the list built from %r answers %s; the name is host "
+                             "number %d of the expansion" % (show(n), s[:100], a, want),
+                             dict(case, name=show(n), name_hex=hx(n), impl=a, expected=want))
+                break
 
 
 def group_text_len(pre, items):
@@ -425,6 +529,200 @@ def cli_check(ctx, hl, dist, cov, only=None):
                              "pdsh -R exec -f 1 contacts %r where the expansion has %r (position %d; %d vs %d hosts)" %
                              (show(a), show(b), i, len(contacted), len(e2)),
                              dict(case, position=i, impl_name=show(a), expected_name=show(b), path="exec"))
+
+
+def exact_line(length, tag=b"h"):
+    """a well-formed expression of exactly `length` bytes: comma-separated plain names of ~60 bytes (few hosts per
+    KiB: the hosts are really contacted), the last one as long as needed"""
+    names, n, i = [], 0, 0
+    while True:
+        nm = tag + b"%03d" % i + b"q" * 52 + b"%02d" % (i % 100)
+        if n + len(nm) + 1 + 3 > length:
+            break
+        names.append(nm)
+        n += len(nm) + 1
+        i += 1
+    last = length - n
+    names.append(tag + b"z" * (last - 1) if last >= 1 else b"")
+    s = b",".join(names)
+    assert len(s) == length, (len(s), length)
+    return s
+
+
+def gen_xcases(rng, n):
+    """(w, x, note): -w W -x X where X names hosts of W's expansion in ANOTHER spelling than W does (a name a range
+    generated, typed as a plain word; plain words, typed as a range) -- an expression denotes the same hosts
+    wherever it is accepted"""
+    pinned = [(b"[8-12]", b"11", "bare-range/plain"), (b"[08-10]", b"[09-10]", "bare-range/range"),
+              (b"8,9,10", b"9", "plain/plain"), (b"8,9,10,11", b"[9-10]", "plain/range"),
+              (b"7,a[1-3],[5-6]", b"7,5", "mixed"), (b"n[1-4]", b"n[2-3]", "range/range"),
+              (b"a[1-3],a[2-4]", b"a2", "repeats"), (b"x[1-2]-[0-1],b,x1-1", b"x1-[1-2],b", "two-bracket"),
+              (b"foo1,foo01,foo001", b"foo01", "padding"), (b"[1-3]0,[9-11]", b"20,10", "numeric-suffix"),
+              (b"42,[40-44],042", b"42", "numeric-dup"), (b"0,[0-1],00", b"0", "zero"),
+              (b"n335544330[1-2]", b"n3355443301", "bigsuffix-one-bracket"),
+              (b"n[33554433]0[1-2]", b"n3355443301", "bigsuffix-two-bracket")]
+    out = list(pinned)
+    gen = WFGen(rng, cli=True, max_hosts=25, near_max=False)
+    tries = 0
+    while len(out) < len(pinned) + n and tries < 40 * n:
+        tries += 1
+        words, s = gen.expr()
+        e2 = expand2(words)
+        if not (2 <= len(e2) <= 40) or len(s) > 600 or any(len(h) > 100 or b"#" in h for h in e2) or b"#" in s:
+            continue
+        style = rng.random()
+        if style < 0.6:
+            pick = sorted(set(rng.sample(range(len(e2)), rng.randrange(1, max(2, len(e2) // 2 + 1)))))
+            x = b",".join(e2[i] for i in pick)
+            note = "names-as-plain-words"
+        else:
+            w = rng.choice(words)
+            x = render_word_py(w)
+            note = "one-word-of-W"
+        if x[:1] in (b"-", b"^", b"/") or not x:
+            continue
+        out.append((s, x, note))
+    return out
+
+
+def render_word_py(w):
+    from vlib.hostlist import render_word
+    return render_word(w)
+
+
+def gen_filecases(rng, n, linebuf):
+    """(lines, note): the text of a WCOLL / ^file -- one expression per line; pinned: lines whose length is an exact
+    multiple of the reader's piece size (fgets(buf, LINEBUFSIZE)) minus the newline, and their neighbours"""
+    out = [([b"a[1-3]", b"  b7 c8,d9", b"", b"[5-6]x"], "small"),
+           ([b"n[01-03]-[0-1]", b"12", b"foo1,foo01"], "two-bracket+numeric")]
+    step = max(8, linebuf - 1)
+    lens = []
+    for k in (1, 2):
+        for d in (-1, 0, 1):
+            lens.append((k * step - 1 + d, "line=%d*(LINEBUFSIZE-1)-1%+d" % (k, d)))
+    for ln, note in lens:
+        out.append(([exact_line(ln, b"h"), b"t[1-2]", b"u9"], note))
+    out.append(([exact_line(step - 1, b"h"), exact_line(step - 1, b"k"), b"v1"], "two-exact-lines"))
+    gen = WFGen(rng, cli=True, max_hosts=12, near_max=False)
+    tries = 0
+    while len(out) < 9 + n and tries < 40 * n:
+        tries += 1
+        lines = []
+        for _ in range(rng.randrange(1, 5)):
+            _, s = gen.expr()
+            if b"#" in s or len(s) > 300:
+                s = b"w%d" % rng.randrange(100)
+            lines.append(rng.choice([b"", b"", b" ", b"\t"]) + s + rng.choice([b"", b"", b" "]))
+        out.append((lines, "generated"))
+    return out
+
+
+def context_check(ctx, hl, dist, cov, only=None):
+    """the same expressions in the OTHER places that accept them (the property says -w/-x/WCOLL files):
+    * -w W -x X: the hosts X denotes are exactly the ones missing from W's expansion;
+    * -w ^FILE / WCOLL=FILE: the targets are the expansions of the lines, in order.
+    Expected lists come from the string-level Lean spec (expand₂ of each text); pdsh is observed through -Q and,
+    where the listing is cut, through the hosts actually contacted."""
+    rng = ctx.rng
+    cli = Cli(ctx)
+    if not cli.pdsh:
+        return
+    fdir = os.path.join(ctx.scratch, "wcollfiles")
+    os.makedirs(fdir, exist_ok=True)
+    if only is not None:
+        xcases = [(unhx(only["w_hex"]), unhx(only["x_hex"]), "replay")] if only["origin"] == "ctx-x" else []
+        fcases = [([unhx(l) for l in only["lines_hex"]], "replay")] if only["origin"] != "ctx-x" else []
+    else:
+        xcases = gen_xcases(rng, 10 if ctx.quick() else 400)
+        fcases = gen_filecases(rng, 6 if ctx.quick() else 200, cli.linebuf())
+    dist["ctx-x"] = {}
+    dist["ctx-file"] = {}
+    # every text through the spec in one batch
+    texts = []
+    for w, x, _ in xcases:
+        texts += [w, x]
+    for lines, _ in fcases:
+        texts += [l.strip(b" \t") for l in lines]
+    spec = dict(zip(texts, hl.spec(texts))) if texts else {}
+
+    def e2(t):
+        v = parse_spec(spec[t])
+        if not v["ok"] or v["note64"] or v["hosts2"] is None or v.get("more1"):
+            return None
+        return v["hosts2"]
+
+    for w, x, note in xcases:
+        ew, ex = e2(w), e2(x)
+        if ew is None or ex is None:
+            continue
+        gone = set(ex)
+        exp = [h for h in ew if h not in gone]
+        case = {"origin": "ctx-x", "w": w.decode("latin1"), "x": x.decode("latin1"), "w_hex": hx(w), "x_hex": hx(x),
+                "note": note}
+        dist["ctx-x"][note] = dist["ctx-x"].get(note, 0) + 1
+        cov["evaluations"] += 1
+        if not exp:
+            cls, hosts, trunc = cli.query_args(["-w", w.decode("latin1"), "-x", x.decode("latin1")])
+            if cls != "nohosts":
+                ctx.offender("ctx-x-mismatch", "pdsh -w %r -x %r: every host is excluded, pdsh says %s %s" %
+                             (w[:80], x[:80], cls, (hosts or [])[:5]), dict(case, pdsh=cls))
+            continue
+        cls, hosts, trunc = cli.query_args(["-w", w.decode("latin1"), "-x", x.decode("latin1")])
+        if cls != "ok":
+            ctx.offender("ctx-x-" + cls, "pdsh -Q -w %r -x %r: %s" % (w[:80], x[:80], cls), dict(case, pdsh=cls))
+            continue
+        if trunc:
+            ccls, hosts = cli.contact_args(["-w", w.decode("latin1"), "-x", x.decode("latin1")])
+            if ccls != "ok":
+                ctx.offender("ctx-x-" + ccls, "pdsh -R exec -w %r -x %r: %s" % (w[:80], x[:80], ccls), dict(case, pdsh=ccls))
+                continue
+        if hosts != exp:
+            i, a, b = first_diff(hosts, exp)
+            # narrow class: nothing wanted is missing, and every host that should be gone but is still there was named
+            # in -x by a PLAIN WORD whose digit tail exceeds MAX_HOST_SUFFIX (2^25) while the working collective holds
+            # it in a range record (second bracket of a two-bracket word): hostname_create() never splits such a tail
+            kept = [h for h in hosts if h in gone]
+            big = (1 << 25)
+            sig = "ctx-x-mismatch"
+            if [h for h in hosts if h not in gone] == exp and kept and \
+               all((tail_value(h) or 0) > big for h in kept) and w.count(b"[") >= 2:
+                sig = "ctx-x-mismatch:bigsuffix+two-bracket"
+            ctx.offender(sig, "pdsh -w %r -x %r targets %r where (expansion of -w) minus (expansion of -x) "
+                         "has %r (position %d; %d vs %d hosts)" % (w[:80], x[:80], show(a), show(b), i, len(hosts), len(exp)),
+                         dict(case, position=i, impl_name=show(a), expected_name=show(b)))
+    for k, (lines, note) in enumerate(fcases):
+        exps = [e2(l.strip(b" \t")) for l in lines]
+        if any(e is None for e in exps):
+            continue
+        exp = [h for e in exps for h in e]
+        if not exp:
+            continue
+        path = os.path.join(fdir, "f%d" % k)
+        with open(path, "wb") as f:
+            f.write(b"".join(l + b"\n" for l in lines))
+        case = {"origin": "ctx-file", "lines": [l[:80].decode("latin1") + ("..(%d bytes)" % len(l) if len(l) > 80 else "")
+                                               for l in lines],
+                "lines_hex": [hx(l) for l in lines], "note": note}
+        dist["ctx-file"][note.split("=")[0]] = dist["ctx-file"].get(note.split("=")[0], 0) + 1
+        for how in (("-w", "^" + path), None):
+            args, env = ([how[0], how[1]], None) if how else ([], {"WCOLL": path})
+            cov["evaluations"] += 1
+            where = "-w ^FILE" if how else "WCOLL=FILE"
+            cls, hosts, trunc = cli.query_args(args, env_extra=env)
+            if cls != "ok":
+                ctx.offender("ctx-file-" + cls, "pdsh -Q %s (%s): %s" % (where, note, cls), dict(case, how=where, pdsh=cls))
+                continue
+            if trunc:
+                ccls, hosts = cli.contact_args(args, env_extra=env)
+                if ccls != "ok":
+                    ctx.offender("ctx-file-" + ccls, "pdsh -R exec %s (%s): %s" % (where, note, ccls),
+                                 dict(case, how=where, pdsh=ccls))
+                    continue
+            if hosts != exp:
+                i, a, b = first_diff(hosts, exp)
+                ctx.offender("ctx-file-mismatch", "pdsh %s (%s) targets %r where the expansion of the file's lines has %r "
+                             "(position %d; %d vs %d hosts)" % (where, note, show(a), show(b), i, len(hosts), len(exp)),
+                             dict(case, how=where, position=i, impl_name=show(a), expected_name=show(b)))
 
 
 def load_corpus():
